@@ -3,9 +3,13 @@ import ActixNet.Lemmas.Chan
 # C16 — local-channel: FIFO, exactly once, clean closure, no lost wake-up
 
 Property theorems only, over `Model/Chan.lean`, for **every** history of applicable operations
-`send i x | clone i | dropSender i | close i | poll w | senderFromReceiver | dropReceiver` from
-`channel()` (`run init ops = some (c, os)`: state `c` after `ops`, observations `os`; `Reach c`: some
-history leads to `c`), any number of senders, any message values.
+`send p i x | clone i | dropSender i | close i | poll p w | senderFromReceiver | dropReceiver | quiet k`
+from `channel()` (`run init ops = some (c, os)`: state `c` after `ops`, observations `os`; `Reach c`:
+some history leads to `c`), any number of senders, any message values.  `send p` is `Sender::send` or
+`Sink::start_send`; `poll p` is `Stream::poll_next` or one poll of a `recv()` future; `quiet k` are the
+remaining public entry points (`Sink::poll_ready/poll_flush/poll_close`, dropping a pending `recv()`
+future, `Debug`).  Every theorem quantifies over the entry points as well: **all receive paths and
+all send paths obey the same statements, in any mixture**.
 
 The model follows local-channel/src/mpsc.rs line by line except for `close`, which it models as the
 property demands (wakes the parked receiver; a closed channel drains and ends).  On the original
@@ -23,15 +27,16 @@ theorem fifo_exactly_once (ops : List Op) (c : Chan) (os : List Obs) (hr : run i
     ∃ rest, sentOk (ops.zip os) = received (ops.zip os) ++ rest ∧ (c.recvAlive = true → rest = c.buffer) := by
   simpa [init] using fifo_gen ops init c os hr
 
-example : (run init [.send 0 7, .clone 0, .send 1 8, .poll 0, .send 0 9, .poll 0, .poll 1, .poll 1]).map (·.2) =
+example : (run init [.send .send 0 7, .clone 0, .send .sink 1 8, .poll .pollNext 0, .send .send 0 9, .poll .recv 0,
+      .poll .pollNext 1, .poll .recv 1]).map (·.2) =
     some [.sent true none, .sender 1, .sent true none, .polled (.ready (some 7)), .sent true none,
       .polled (.ready (some 8)), .polled (.ready (some 9)), .polled .pending] := by decide
 
 /-- **`send` fails exactly when the receiver has been dropped or the channel closed** (by any
 sender, at any earlier point of the history). -/
-theorem send_fails_iff (ops : List Op) (c c' : Chan) (os : List Obs) (i x : Nat) (ok : Bool)
+theorem send_fails_iff (ops : List Op) (c c' : Chan) (os : List Obs) (p : SendPath) (i x : Nat) (ok : Bool)
     (wk : Option WakerId) (hr : run init ops = some (c, os))
-    (hs : step c (.send i x) = some (c', .sent ok wk)) :
+    (hs : step c (.send p i x) = some (c', .sent ok wk)) :
     ok = false ↔ (Op.dropReceiver ∈ ops ∨ ∃ j, Op.close j ∈ ops) := by
   have hf := (run_flags ops init c os hr).1
   have hcl : ops.any Op.closes = true ↔ (Op.dropReceiver ∈ ops ∨ ∃ j, Op.close j ∈ ops) := by
@@ -62,11 +67,12 @@ theorem send_fails_iff (ops : List Op) (c c' : Chan) (os : List Obs) (i x : Nat)
       rw [hany]; simp
   · simp at hs
 
-example : (run init [.clone 0, .close 1, .send 0 1]).map (·.2) = some [.sender 1, .closed none, .sent false none] := by decide
-example : (run init [.dropReceiver, .send 0 1]).map (·.2) = some [.receiverDropped, .sent false none] := by decide
+example : (run init [.clone 0, .close 1, .send .send 0 1, .send .sink 0 1]).map (·.2) =
+    some [.sender 1, .closed none, .sent false none, .sent false none] := by decide
+example : (run init [.dropReceiver, .send .send 0 1]).map (·.2) = some [.receiverDropped, .sent false none] := by decide
 
-/-- A `poll_next` that returns `Pending` leaves the caller's waker registered … -/
-theorem pending_parks (c c' : Chan) (w : WakerId) (hs : step c (.poll w) = some (c', .polled .pending)) :
+/-- A `poll_next` / polled `recv()` that returns `Pending` leaves the caller's waker registered … -/
+theorem pending_parks (c c' : Chan) (p : RecvPath) (w : WakerId) (hs : step c (.poll p w) = some (c', .polled .pending)) :
     c'.parked = some w := by
   simp only [step] at hs
   split at hs
@@ -80,14 +86,15 @@ theorem pending_parks (c c' : Chan) (w : WakerId) (hs : step c (.poll w) = some 
 
 /-- … **no wake-up is lost**: as long as the parked waker has not been woken it stays registered —
 a step either keeps it, or reports it woken, or replaces it by the waker of a newer `poll_next`
-that returned `Pending`, or drops the receiver — … -/
+(or newer poll of a `recv()` future) that returned `Pending`, or drops the receiver; in particular
+dropping a pending `recv()` future keeps the registration — … -/
 theorem unwoken_stays_parked (c c' : Chan) (op : Op) (o : Obs) (w : WakerId) (hp : c.parked = some w)
     (hs : step c op = some (c', o)) :
-    c'.parked = some w ∨ o.woke = some w ∨ (∃ w', op = .poll w' ∧ o = .polled .pending ∧ c'.parked = some w') ∨
+    c'.parked = some w ∨ o.woke = some w ∨ (∃ p w', op = .poll p w' ∧ o = .polled .pending ∧ c'.parked = some w') ∨
       op = .dropReceiver := by
   simp only [Chan.parked] at hp ⊢
   cases op with
-  | send i x =>
+  | send p i x =>
     simp only [step] at hs; split at hs
     · split at hs <;>
       · simp only [Option.some.injEq, Prod.mk.injEq] at hs; obtain ⟨h1, h2⟩ := hs; subst h1; subst h2
@@ -109,7 +116,7 @@ theorem unwoken_stays_parked (c c' : Chan) (op : Op) (o : Obs) (w : WakerId) (hp
     · simp only [Option.some.injEq, Prod.mk.injEq] at hs; obtain ⟨h1, h2⟩ := hs; subst h1; subst h2
       simp [Obs.woke, LocalWaker.wake, LocalWaker.take, hp]
     · simp at hs
-  | poll w' =>
+  | poll p w' =>
     simp only [step] at hs; split at hs
     · split at hs
       · simp only [Option.some.injEq, Prod.mk.injEq] at hs; obtain ⟨h1, h2⟩ := hs; subst h1; subst h2
@@ -118,7 +125,7 @@ theorem unwoken_stays_parked (c c' : Chan) (op : Op) (o : Obs) (w : WakerId) (hp
         · simp only [Option.some.injEq, Prod.mk.injEq] at hs; obtain ⟨h1, h2⟩ := hs; subst h1; subst h2
           exact Or.inl hp
         · simp only [Option.some.injEq, Prod.mk.injEq] at hs; obtain ⟨h1, h2⟩ := hs; subst h1; subst h2
-          exact Or.inr (Or.inr (Or.inl ⟨w', rfl, rfl, by simp [LocalWaker.register]⟩))
+          exact Or.inr (Or.inr (Or.inl ⟨p, w', rfl, rfl, by simp [LocalWaker.register]⟩))
     · simp at hs
   | senderFromReceiver =>
     simp only [step] at hs; split at hs
@@ -126,17 +133,18 @@ theorem unwoken_stays_parked (c c' : Chan) (op : Op) (o : Obs) (w : WakerId) (hp
       exact Or.inl hp
     · simp at hs
   | dropReceiver => exact Or.inr (Or.inr (Or.inr rfl))
+  | quiet k => rw [(quiet_step c c' k o hs).1]; exact Or.inl hp
 
 /-- … and **a parked receiver is missing nothing**: in every reachable state in which the
 receiver's waker is still registered, the channel is open, has a sender, and the buffer is empty
-(so `poll_next` would return `Pending` again). -/
+(so `poll_next` / `recv()` would return `Pending` again). -/
 theorem parked_has_nothing_to_do (c : Chan) (w : WakerId) (hr : Reach c) (hp : c.parked = some w)
     (ha : c.recvAlive = true) : c.hasReceiver = true ∧ c.senders ≠ [] ∧ c.buffer = [] :=
   (good_reach hr).2 w hp ha
 
-/-- A parked receiver is woken by the next `send` (which succeeds) -/
-theorem parked_woken_by_send (c c' : Chan) (w : WakerId) (i x : Nat) (o : Obs) (hr : Reach c)
-    (hp : c.parked = some w) (ha : c.recvAlive = true) (hs : step c (.send i x) = some (c', o)) :
+/-- A parked receiver is woken by the next `send` / `start_send` (which succeeds) -/
+theorem parked_woken_by_send (c c' : Chan) (w : WakerId) (p : SendPath) (i x : Nat) (o : Obs) (hr : Reach c)
+    (hp : c.parked = some w) (ha : c.recvAlive = true) (hs : step c (.send p i x) = some (c', o)) :
     o = .sent true (some w) ∧ c'.parked = none := by
   have hopen := (parked_has_nothing_to_do c w hr hp ha).1
   simp only [Chan.parked] at hp
@@ -146,7 +154,9 @@ theorem parked_woken_by_send (c c' : Chan) (w : WakerId) (i x : Nat) (o : Obs) (
     simp [LocalWaker.wake, LocalWaker.take, hp, Chan.parked]
   · simp at hs
 
-example : (run init [.poll 2, .send 0 5]).map (·.2) = some [.polled .pending, .sent true (some 2)] := by decide
+example : (run init [.poll .pollNext 2, .send .send 0 5]).map (·.2) = some [.polled .pending, .sent true (some 2)] := by decide
+example : (run init [.poll .recv 2, .quiet .recvDrop, .poll .recv 3, .send .sink 0 5, .poll .recv 3]).map (·.2) =
+    some [.polled .pending, .futDropped, .polled .pending, .sent true (some 3), .polled (.ready (some 5))] := by decide
 
 /-- A parked receiver is woken by the drop of the last sender -/
 theorem parked_woken_by_last_sender_drop (c c' : Chan) (w : WakerId) (i : Nat) (o : Obs) (hr : Reach c)
@@ -162,7 +172,7 @@ theorem parked_woken_by_last_sender_drop (c c' : Chan) (w : WakerId) (i : Nat) (
     simp [LocalWaker.wake, LocalWaker.take, hp, Chan.parked]
   · simp at hs
 
-example : (run init [.clone 0, .poll 1, .dropSender 0, .dropSender 1, .poll 1]).map (·.2) =
+example : (run init [.clone 0, .poll .recv 1, .dropSender 0, .dropSender 1, .poll .recv 1]).map (·.2) =
     some [.sender 1, .polled .pending, .senderDropped none, .senderDropped (some 1), .polled (.ready none)] := by decide
 
 /-- A parked receiver is woken by `close` (through any sender).
@@ -177,17 +187,20 @@ theorem parked_woken_by_close (c c' : Chan) (w : WakerId) (i : Nat) (o : Obs)
     simp [LocalWaker.wake, LocalWaker.take, hp, Chan.parked]
   · simp at hs
 
-example : (run init [.poll 3, .close 0, .poll 3]).map (·.2) =
+example : (run init [.poll .pollNext 3, .close 0, .poll .pollNext 3]).map (·.2) =
+    some [.polled .pending, .closed (some 3), .polled (.ready none)] := by decide
+example : (run init [.poll .recv 3, .close 0, .poll .recv 3]).map (·.2) =
     some [.polled .pending, .closed (some 3), .polled (.ready none)] := by decide
 
 /-- Once the channel has been closed (by any sender, earlier in the history) or has no sender left,
-`poll_next` never parks: it hands out the head of the buffer, and `None` once the buffer is empty.
+`poll_next` / `recv()` never parks: it hands out the head of the buffer, and `None` once the buffer is
+empty (so a message buffered before `close` is never dropped on either receive path).
 **Was false of the original tree** (F5) in the closed-with-a-live-sender case. -/
-theorem closed_drains_then_none (ops : List Op) (c : Chan) (os : List Obs) (w : WakerId)
+theorem closed_drains_then_none (ops : List Op) (c : Chan) (os : List Obs) (p : RecvPath) (w : WakerId)
     (hr : run init ops = some (c, os)) (ha : c.recvAlive = true)
     (h : (∃ j, Op.close j ∈ ops) ∨ c.senders = []) :
-    step c (.poll w) = some ({ c with buffer := c.buffer.tail }, .polled (.ready c.buffer.head?)) ∧
-    (c.buffer = [] → (step c (.poll w)).map (·.2) = some (.polled (.ready none))) := by
+    step c (.poll p w) = some ({ c with buffer := c.buffer.tail }, .polled (.ready c.buffer.head?)) ∧
+    (c.buffer = [] → (step c (.poll p w)).map (·.2) = some (.polled (.ready none))) := by
   have hcl : c.hasReceiver = false ∨ c.senders = [] := by
     rcases h with ⟨j, hj⟩ | h
     · left
@@ -195,15 +208,16 @@ theorem closed_drains_then_none (ops : List Op) (c : Chan) (os : List Obs) (w : 
       have : ops.any Op.closes = true := List.any_eq_true.mpr ⟨_, hj, rfl⟩
       simp [this]
     · exact Or.inr h
-  have hp := poll_closed c w ha hcl
+  have hp := poll_closed c p w ha hcl
   exact ⟨hp, fun hb => by rw [hp]; simp [hb]⟩
 
-/-- … so polling such a channel `buffer.length + 1` times yields exactly the buffered messages, in
-order, and then `None`. -/
-theorem closed_drains_fully (ops : List Op) (c : Chan) (os : List Obs) (w : WakerId)
+/-- … so asking such a channel `buffer.length + 1` times — through **any mixture** of `poll_next` and
+`recv()`, with any wakers (`polls ps`) — yields exactly the buffered messages, in order, and then
+`None`. -/
+theorem closed_drains_fully (ops : List Op) (c : Chan) (os : List Obs) (ps : List (RecvPath × WakerId))
     (hr : run init ops = some (c, os)) (ha : c.recvAlive = true)
-    (h : (∃ j, Op.close j ∈ ops) ∨ c.senders = []) :
-    (run c (List.replicate (c.buffer.length + 1) (.poll w))).map (·.2) =
+    (h : (∃ j, Op.close j ∈ ops) ∨ c.senders = []) (hl : ps.length = c.buffer.length + 1) :
+    (run c (polls ps)).map (·.2) =
       some (c.buffer.map (fun x => Obs.polled (.ready (some x))) ++ [Obs.polled (.ready none)]) := by
   have hcl : c.hasReceiver = false ∨ c.senders = [] := by
     rcases h with ⟨j, hj⟩ | h
@@ -212,12 +226,45 @@ theorem closed_drains_fully (ops : List Op) (c : Chan) (os : List Obs) (w : Wake
       have : ops.any Op.closes = true := List.any_eq_true.mpr ⟨_, hj, rfl⟩
       simp [this]
     · exact Or.inr h
-  exact drain_gen w c.buffer c rfl ha hcl
+  exact drain_gen c.buffer ps c rfl hl ha hcl
 
-example : (run init [.send 0 1, .send 0 2, .clone 0, .close 1, .poll 0, .poll 0, .poll 0, .poll 0]).map (·.2) =
+example : (run init [.send .send 0 1, .send .send 0 2, .clone 0, .close 1, .poll .pollNext 0, .poll .pollNext 0,
+      .poll .pollNext 0, .poll .pollNext 0]).map (·.2) =
     some [.sent true none, .sent true none, .sender 1, .closed none, .polled (.ready (some 1)),
       .polled (.ready (some 2)), .polled (.ready none), .polled (.ready none)] := by decide
-example : (run init [.send 0 1, .dropSender 0, .poll 0, .poll 0]).map (·.2) =
+example : (run init [.send .send 0 1, .send .sink 0 2, .close 0, .poll .recv 0, .poll .pollNext 1, .poll .recv 2]).map (·.2) =
+    some [.sent true none, .sent true none, .closed none, .polled (.ready (some 1)),
+      .polled (.ready (some 2)), .polled (.ready none)] := by decide
+example : (run init [.send .send 0 1, .dropSender 0, .poll .recv 0, .poll .recv 0]).map (·.2) =
     some [.sent true none, .senderDropped none, .polled (.ready (some 1)), .polled (.ready none)] := by decide
+example : polls [(.recv, 0), (.pollNext, 1)] = [.poll .recv 0, .poll .pollNext 1] := by decide
+
+/-- **All receive paths agree**: what the receiver is handed, and the state it leaves behind, do not
+depend on whether it was asked through `poll_next` or through a `recv()` future (pending or fresh). -/
+theorem receive_paths_agree (c : Chan) (p q : RecvPath) (w : WakerId) : step c (.poll p w) = step c (.poll q w) := by
+  simp only [step]
+
+/-- **All send paths agree**: `Sink::start_send` is `Sender::send`. -/
+theorem send_paths_agree (c : Chan) (p q : SendPath) (i x : Nat) : step c (.send p i x) = step c (.send q i x) := by
+  simp only [step]
+
+example : step init (.poll .recv 1) = some ({ init with blocked := { waker := some 1 } }, .polled .pending) := by decide
+
+/-- The remaining public entry points — `Sink::poll_ready / poll_flush / poll_close`, dropping a
+pending `recv()` future, `Debug` — change nothing and wake nobody, and `Debug` shows the buffer and
+the open flag as they are.  (`Sink::poll_close` does **not** close the channel: the code that exists.) -/
+theorem quiet_ops_change_nothing (c c' : Chan) (k : Quiet) (o : Obs) (hs : step c (.quiet k) = some (c', o)) :
+    c' = c ∧ o.woke = none ∧
+    ((k = .debugReceiver ∨ ∃ i, k = .debugSender i) → o = .debug c.buffer c.hasReceiver) ∧
+    ((∃ i, k = .sinkReady i ∨ k = .sinkFlush i ∨ k = .sinkClose i) → o = .readyOk) := by
+  obtain ⟨h1, h2, h3⟩ := quiet_step c c' k o hs
+  refine ⟨h1, h3, ?_, ?_⟩
+  · rintro (h | ⟨i, h⟩) <;> subst h <;> simpa [Quiet.obs] using h2
+  · rintro ⟨i, h | h | h⟩ <;> subst h <;> simpa [Quiet.obs] using h2
+
+example : (run init [.send .send 0 4, .quiet (.sinkClose 0), .quiet (.sinkReady 0), .quiet .debugReceiver, .send .sink 0 5,
+      .quiet (.debugSender 0), .close 0, .quiet .debugReceiver]).map (·.2) =
+    some [.sent true none, .readyOk, .readyOk, .debug [4] true, .sent true none, .debug [4, 5] true, .closed none,
+      .debug [4, 5] false] := by decide
 
 end ActixNet.C16
